@@ -186,6 +186,25 @@ fn check(rep: &mut Report, w: &W, text: &str, op: &OpSpec, refs: &[R]) {
             Err(m) => rep.fail("panic", &format!("{}/entry-point-panics", op.sig()), ctx.clone(), &got_s, &m),
         }
     }
+    // the iterator form (`TextSelectionIterator::related_text`) over several references is the union of the searches from
+    // each reference alone, in textual order and without repetitions
+    if refs.len() > 1 && got.is_ok() {
+        let store = &w.store;
+        let each: Result<Vec<Vec<R>>, String> = refs.iter().map(|r| search(w, op, &[*r])).collect();
+        let viaiter = guarded(std::panic::AssertUnwindSafe(|| {
+            let res = store.resource("r").unwrap();
+            let sels: Vec<ResultTextSelection> = refs.iter().map(|r| res.textselection(&Offset::simple(r.0, r.1)).expect("ref")).collect();
+            sels.into_iter().related_text(op.to_op()).map(|t| (t.begin(), t.end())).collect::<Vec<R>>()
+        }));
+        if let Ok(each) = each {
+            let mut want: Vec<R> = each.into_iter().flatten().collect();
+            want.sort(); want.dedup();
+            match viaiter {
+                Ok(v) => if v != want { rep.fail("oracle", &format!("{}/iterator-over-references-differs/{}", op.sig(), if { let mut x = v.clone(); x.sort(); x.dedup(); x == want } { "order-or-repetition" } else { "content" }), ctx.clone(), &fmt_ranges(&want), &fmt_ranges(&v)); },
+                Err(m) => rep.fail("panic", &format!("{}/iterator-over-references-panics", op.sig()), ctx.clone(), &fmt_ranges(&want), &m),
+            }
+        }
+    }
     rep.case(if nontrivial { Some(&key) } else { None });
     rep.model_case(vec![line], vec![got_s], &format!("{}", op.sig()));
 }
